@@ -97,7 +97,7 @@ func c12Build(c c05Case) (*c12Dag, error) {
 		d.blocks = store.FirstReads(d.tree.DFS()[1:])
 		d.sized = true
 		if c.Kind == "hand" {
-			if spec, ok := gen.HandByLabel(c.Hand); ok && spec.BlockSizes != "all" {
+			if spec, ok := gen.HandByLabel(c.Hand); ok && !spec.Sized() {
 				d.sized = false
 			}
 		}
